@@ -6,6 +6,8 @@ from tables import invariants as I
 def run(ctx):
     tabs = I.load_tables(REPO)
     I.char_call_roles(ctx, tabs)
+    from contracts import wrapf_char
+    ctx.pyvc(wrapf_char.UNITS, {})
     units = False
     try:
         from cfront import helpers as H
@@ -27,7 +29,8 @@ def run(ctx):
     ]
     ctx.not_covered += [
         "semantics of the Fortran intrinsics trim/len/len_trim and of std::string(const char*, n) (assumed as documented)",
-        "the Fortran side (wrapf ftrim_char_in slice, len/len_trim actual arguments)",
+        "the Fortran side beyond ToImplied.visit_Identifier and the ftrim_char_in rule (wrap_function_impl's "
+        "trim(arg)//C_NULL_CHAR actual argument, build_arg_list_impl len/len_trim actuals are covered under C04)",
     ]
     return ctx.finish(level="proof" if units else "other",
                       explanation="call-site contracts over the statement tables decided by exhaustive evaluation; C helper "
